@@ -107,7 +107,7 @@ Definition decode_wavpack (f : list Z) : result (list Z) :=
     let flags := le_at 24 4 header in
     let channels := if negb ((flags / 4) mod 2 =? 0) then 1 else 2 in           (* bool(flags & 4) or 2 *)
     match idx ((flags / 8388608) mod 16) gen_wavpack_rates with                 (* RATES[(flags >> 23) & 0xF] *)
-    | None => Raise EIndex
+    | None => Raise EMutagen                            (* IndexError -> WavPackHeaderError("unsupported sample rate") *)
     | Some rate0 =>
       let bits0 := ((flags mod 4) + 1) * 8 in
       let dsd := negb ((flags / 2147483648) mod 2 =? 0) in
